@@ -1,29 +1,90 @@
 package adaptation
 
-// H_C01_smoke: two plugins set one annotation each.
-//verif:property C01
-//verif:expect-cover collision
-func H_C01_smoke() {
-	id := nondetString()
-	req := &CreateContainerRequest{Container: &Container{Id: id}}
+// C01 / C02 harnesses on the result level: N plugins' creation responses are applied in turn
+// to the real (*result).apply; the real verdict (error / no error) of every apply is compared
+// with the reference ownership model expectedConflict (zz_verif_rh.go).
+//
+//   C01 direction: expected conflict  => apply returns an error
+//   C02 direction: no expected conflict and well-formed response => apply returns nil
+
+// rhAdjustRun applies n plugins' adjustments of family f; maxItems[i] bounds plugin i's items.
+// mode 1 = C01 assertions, mode 2 = C02 assertions.
+func rhAdjustRun(f int, maxItems []int, mode int) {
+	shape("fam=" + famNames[f])
+	req := symOriginal(f)
 	r := collectCreateContainerResult(req)
-	p1, p2 := nondetString(), nondetString()
-	assume(p1 != p2)
-	assume(p1 != "")
-	assume(p2 != "")
-	k1, v1 := nondetString(), nondetString()
-	k2, v2 := nondetString(), nondetString()
-	a1 := &ContainerAdjustment{Annotations: map[string]string{k1: v1}}
-	a2 := &ContainerAdjustment{Annotations: map[string]string{k2: v2}}
-	e1 := r.apply(&CreateContainerResponse{Adjust: a1}, p1)
-	assume(e1 == nil)
-	e2 := r.apply(&CreateContainerResponse{Adjust: a2}, p2)
-	if k1 == k2 {
-		if k1 != "" {
-			if k1[0] != '-' {
-				cover("collision")
-				vassert(e2 != nil, "undetected annotation collision")
+	n := len(maxItems)
+	ps := symPlugins(n)
+	var prev [][]sItem
+	for j := 0; j < n; j++ {
+		cur := symItems(f, maxItems[j])
+		wf := wellFormed(f, cur)
+		exp := expectedConflict(f, prev, cur)
+		err := r.apply(&CreateContainerResponse{Adjust: buildAdjust(f, cur)}, ps[j])
+		if mode == 1 {
+			coverIf(exp, "collision")
+			if err == nil {
+				vassert(bnot(exp), "undetected-collision")
+			}
+		} else {
+			coverIf(band(wf, bnot(exp)), "conflict-free")
+			if err != nil {
+				vassert(bor(bnot(wf), exp), "spurious-conflict")
 			}
 		}
+		if err != nil {
+			return
+		}
+		assume(wf)
+		prev = append(prev, cur)
 	}
 }
+
+// H_C01_adjust2q: two plugins, <=1 and <=2 items, every item family (instance = family).
+//verif:property C01
+//verif:instances 29
+//verif:tier quick
+//verif:expect-cover collision
+func H_C01_adjust2q() { rhAdjustRun(instance(), []int{1, 2}, 1) }
+
+// H_C01_adjust2: two plugins, <=2 items each, every item family (instance = family).
+//verif:property C01
+//verif:instances 29
+//verif:tier thorough
+//verif:expect-cover collision
+func H_C01_adjust2() { rhAdjustRun(instance(), []int{2, 2}, 1) }
+
+// H_C01_adjust3: three plugins (1,2,1 items), every item family.
+//verif:property C01
+//verif:instances 29
+//verif:tier thorough
+//verif:expect-cover collision
+func H_C01_adjust3() { rhAdjustRun(instance(), []int{1, 2, 1}, 1) }
+
+// H_C02_adjust2q: two plugins, <=1 and <=2 items: disjoint or removal-prefixed writes never conflict.
+//verif:property C02
+//verif:instances 29
+//verif:tier quick
+//verif:expect-cover conflict-free
+func H_C02_adjust2q() { rhAdjustRun(instance(), []int{1, 2}, 2) }
+
+// H_C02_adjust3q: three plugins, one item each: set / remove / set-again chains.
+//verif:property C02
+//verif:instances 29
+//verif:tier quick
+//verif:expect-cover conflict-free
+func H_C02_adjust3q() { rhAdjustRun(instance(), []int{1, 1, 1}, 2) }
+
+// H_C02_adjust2: two plugins, <=2 items each.
+//verif:property C02
+//verif:instances 29
+//verif:tier thorough
+//verif:expect-cover conflict-free
+func H_C02_adjust2() { rhAdjustRun(instance(), []int{2, 2}, 2) }
+
+// H_C02_adjust3: three plugins (1,2,1 items): includes set / remove / set-again chains.
+//verif:property C02
+//verif:instances 29
+//verif:tier thorough
+//verif:expect-cover conflict-free
+func H_C02_adjust3() { rhAdjustRun(instance(), []int{1, 2, 1}, 2) }
